@@ -794,7 +794,7 @@ fn run(ctx: &RunCtx) -> Result<(), Violation> {
     if scenario > 0 {
         return directed(scenario, ctx);
     }
-    let mut spec = wgen::gen_scheme(&[4, 6, 8, 8, 2, 2, 2, 1], chance(2, 3, "with_lists"), false);
+    let mut spec = wgen::gen_scheme(&[4, 6, 8, 8, 2, 2, 2, 1, 4], chance(2, 3, "with_lists"), false);
     if spec.family == "lists_only" && spec.lists.is_empty() {
         spec.lists.push((MType::Int, ListKind::Set));
     }
